@@ -3,6 +3,7 @@
 From Verif Require Import Base.Tactics Base.ZList Base.Val.
 From Verif Require Import Base.Str.
 From Verif Require Import Model.BufReaderModel Model.RangeModel Model.IsoTimeModel Model.TimingModel Model.SegModel.
+From Verif Require Import Base.Bits Model.CrcModel Model.EventsModel Model.Scte35Model.
 
 (* ---- C20 ---- request: (file off bs maxb (size?) mode ops) *)
 Definition c20_op (v : val) : op :=
@@ -128,8 +129,82 @@ Definition seg_run (v : val) : val :=
             (segment_list (map (fun v => (vint (vnth 0 v), vint (vnth 1 v))) (vlist (vnth 1 v)))))
   else verr 998.
 
+(* ---- C14 ---- request: (mode ...) *)
+Definition c14_sched (v : val) : sched :=
+  {| e_start := vint (vnth 0 v); e_interval := vint (vnth 1 v); e_count := vint (vnth 2 v);
+     e_timescale := vint (vnth 3 v); e_duration := vint (vnth 4 v); e_version := vint (vnth 5 v);
+     e_inband := 0 <? vint (vnth 6 v) |}.
+Definition c14_pairs (l : list (Z * Z)) : val := VL (map (fun p => VL [VI (fst p); VI (snd p)]) l).
+Definition vb (v : val) : bool := 0 <? vint v.
+Definition c14_cmd (v : val) : command :=
+  let t := vint (vnth 0 v) in
+  if t =? 5 then
+    CInsert {| si_id := vint (vnth 1 v); si_out := vb (vnth 2 v); si_pts := as_opt_int (vnth 3 v);
+               si_break := match vnth 4 v with
+                           | VL [a; d] => Some {| bd_auto := vb a; bd_dur := vint d |}
+                           | _ => None end;
+               si_program_id := vint (vnth 5 v); si_avail_num := vint (vnth 6 v);
+               si_avails_expected := vint (vnth 7 v) |}
+  else if t =? 6 then CTime (as_opt_int (vnth 1 v)) else CNull.
+Definition c14_desc (v : val) : desc :=
+  let t := vint (vnth 0 v) in
+  let ident := vint (vnth 1 v) in
+  if t =? 0 then DAvail ident (vint (vnth 2 v))
+  else if t =? 2 then
+    let f := vnth 2 v in
+    DSeg ident {| sd_event_id := vint (vnth 0 f); sd_duration := as_opt_int (vnth 1 f); sd_dnr := vb (vnth 2 f);
+                  sd_web := vb (vnth 3 f); sd_noreg := vb (vnth 4 f); sd_archive := vb (vnth 5 f);
+                  sd_device := vint (vnth 6 f); sd_upid_type := vint (vnth 7 f); sd_upid := vints (vnth 8 f);
+                  sd_type := vint (vnth 9 f); sd_num := vint (vnth 10 f); sd_expected := vint (vnth 11 f);
+                  sd_sub_num := vint (vnth 12 f); sd_sub_expected := vint (vnth 13 f) |}
+  else if t =? 3 then DTime ident (vint (vnth 2 v)) (vint (vnth 3 v)) (vint (vnth 4 v))
+  else DUnknown t ident (vints (vnth 2 v)).
+Definition c14_signal (v : val) : signal :=
+  {| sg_table_id := vint (vnth 0 v); sg_sap := vint (vnth 1 v); sg_ssi := vb (vnth 2 v); sg_private := vb (vnth 3 v);
+     sg_protocol := vint (vnth 4 v); sg_enc_alg := vint (vnth 5 v); sg_pts_adj := vint (vnth 6 v);
+     sg_cw := vint (vnth 7 v); sg_tier := vint (vnth 8 v); sg_cmd := c14_cmd (vnth 9 v);
+     sg_descs := map c14_desc (vlist (vnth 10 v)) |}.
+Definition c14_cmd_out (c : command) : val :=
+  match c with
+  | CNull => VL [VI 0]
+  | CTime p => VL [VI 6; vopt_int p]
+  | CInsert i => VL [VI 5; VI (si_id i); vbool (si_out i); vopt_int (si_pts i);
+                     match si_break i with Some b => VL [vbool (bd_auto b); VI (bd_dur b)] | None => VL [] end;
+                     VI (si_program_id i); VI (si_avail_num i); VI (si_avails_expected i)]
+  end.
+Definition c14_desc_out (d : desc) : val :=
+  match d with
+  | DAvail i id => VL [VI 0; VI i; VI id]
+  | DTime i a b c => VL [VI 3; VI i; VI a; VI b; VI c]
+  | DUnknown t i data => VL [VI t; VI i; of_ints data]
+  | DSeg i s => VL [VI 2; VI i; VL [VI (sd_event_id s); vopt_int (sd_duration s); vbool (sd_dnr s); vbool (sd_web s);
+                     vbool (sd_noreg s); vbool (sd_archive s); VI (sd_device s); VI (sd_upid_type s);
+                     of_ints (sd_upid s); VI (sd_type s); VI (sd_num s); VI (sd_expected s);
+                     VI (sd_sub_num s); VI (sd_sub_expected s)]]
+  end.
+Definition c14_signal_out (s : signal) : val :=
+  VL [VI (sg_table_id s); VI (sg_sap s); vbool (sg_ssi s); vbool (sg_private s); VI (sg_protocol s);
+      VI (sg_enc_alg s); VI (sg_pts_adj s); VI (sg_cw s); VI (sg_tier s); c14_cmd_out (sg_cmd s);
+      VL (map c14_desc_out (sg_descs s))].
+Definition c14_run (v : val) : val :=
+  let mode := vint (vnth 0 v) in
+  if mode =? 0 then c14_pairs (emsg (c14_sched (vnth 1 v)) (vint (vnth 2 v)) (vint (vnth 3 v)))
+  else if mode =? 1 then c14_pairs (manifest_events (c14_sched (vnth 1 v)))
+  else if mode =? 2 then of_ints (bits_bytes (enc_signal (c14_signal (vnth 1 v))))
+  else if mode =? 3 then
+    match dec_signal (byte_bits (vints (vnth 1 v))) with
+    | None => VL [VI (-1)]
+    | Some (None, _) => VL [VI (-2)]
+    | Some (Some s, ok) => VL [c14_signal_out s; vbool ok]
+    end
+  else if mode =? 4 then VI (crc32 (byte_bits (vints (vnth 1 v))))
+  else if mode =? 5 then
+    VL [VI (scte35_pts (c14_sched (vnth 1 v)) (vint (vnth 2 v))); VI (scte35_break (c14_sched (vnth 1 v)))]
+  else verr 997.
+
 Definition dispatch (comp : Z) (v : val) : val :=
   if comp =? 20 then c20_run v
+  else if comp =? 14 then c14_run v
   else if comp =? 2 then seg_run v
   else if comp =? 8 then c08_run v
   else if comp =? 13 then c13_run v
